@@ -78,7 +78,8 @@ class ScalarField(DataFieldBase):
                 consts = {}
             if "cartesian" not in consts:
                 coords_cart = grid.point_to_cartesian(grid.cell_coords)
-                consts["cartesian"] = np.moveaxis(coords_cart, -1, 0)
+                # add the coordinates to a copy to leave the dictionary of the caller untouched
+                consts = {**consts, "cartesian": np.moveaxis(coords_cart, -1, 0)}
             assert "cartesian" in consts
 
         # parse the expression
